@@ -6,6 +6,8 @@ use crate::engine::{Cx, Property, Tier};
 use crate::ensure_p;
 use crate::world::*;
 use proptest::prelude::*;
+#[allow(unused_imports)]
+use crate::prop_oneof;
 use serde::{Deserialize, Serialize};
 use soroban_sdk::testutils::{Address as _, Ledger as _};
 use soroban_sdk::xdr::ScVal;
@@ -192,7 +194,7 @@ impl Property for C12 {
         let max = tier.pick(40usize, 70usize);
         // one op in ten has all its account roles aliased to one account (from == to == spender)
         let aliased_op = (op(), 0u8..10).prop_map(|(o, r)| if r == 0 { alias_all(o) } else { o });
-        (0u16..300, proptest::option::of(idx()), proptest::collection::vec(aliased_op, 0..max))
+        (0u16..300, crate::engine::opt_of(idx()), proptest::collection::vec(aliased_op, 0..max))
             .prop_map(|(start_seq, initial_minter, ops)| Case { start_seq, initial_minter, ops })
             .boxed()
     }
